@@ -17,12 +17,16 @@ KidOf(m, tp, shift) == [v \in 1 .. m |-> [t |-> IF v = 1 THEN 0 ELSE tp[v - 1] +
 RefsOf(n, r) == [j \in 1 .. n * r |-> Rf(((j - 1) % n) + 1, FALSE)]
 
 \* alt: every second child is edited one tick later than the others
-Fam(n, m, r, tp, alt, two) ==
+\* rev: the times of versions 2 .. m run backwards (timestamps that disagree with the version
+\*      order occur in real data; then "by time and then by version" differs from "by version")
+Rev(m, tp) == [a \in 1 .. m - 1 |-> tp[m - a]]
+Fam(n, m, r, tp0, alt, two, rev) ==
+  LET tp == IF rev THEN Rev(m, tp0) ELSE tp0 IN
   [kids |-> [k \in 1 .. n |-> KidOf(m, tp, IF alt /\ k % 2 = 0 THEN 1 ELSE 0)],
    par  |-> <<[t |-> 0, vis |-> TRUE, cs |-> 1, refs |-> RefsOf(n, r)]>> \o
             (IF two THEN <<[t |-> 4, vis |-> TRUE, cs |-> 2, refs |-> RefsOf(n, 1)]>> ELSE <<>>)]
 
-Families == UNION { { Fam(n, m, r, tp, alt, two) : tp \in TimePatterns(m), alt \in BOOLEAN, two \in BOOLEAN } :
+Families == UNION { { Fam(n, m, r, tp, alt, two, rev) : tp \in TimePatterns(m), alt \in BOOLEAN, two \in BOOLEAN, rev \in BOOLEAN } :
                     n \in NSet, m \in MSet, r \in RSet }
 
 ASSUME PrintT(<<"OPTS", ToJson(FamOpts)>>)
